@@ -106,8 +106,9 @@ func (h *Handler) spoofLoop(addr packet.Addr) {
 		// i.e. tell target I am 192.168.0.1
 		err := h.AnnounceTo(targetAddr.MAC, h.session.NICInfo.RouterAddr4.IP)
 		if err != nil {
+			// keep the loop: the target is still in the hunt list; try again at the next tick.
+			// Only StopHunt or Close end the loop (and StopHunt restores the target).
 			Logger.Msg("error send announcement packet").Struct(targetAddr).Error(err).Write()
-			return
 		}
 
 		if nTimes%16 == 0 { // minimise logging
